@@ -2,6 +2,7 @@ package main
 
 import (
 	"bytes"
+	"os"
 	"fmt"
 	"math/big"
 
@@ -248,5 +249,151 @@ func collude(c *vf.Ctx, ri, k, n int) {
 	}
 	if ri < 2 {
 		c.Sample(map[string]interface{}{"run": name, "n": n, "colluding": true, "root": root, "lib_at_fork": l1, "lib_at_end": l2, "main_height": h2, "fork_blocks": len(fork), "early_prefix": early, "order": order, "steps": s.trace})
+	}
+}
+
+// failedReorg: colluding producers again, one correct node j. A side branch S1 (valid), S2 (signed by a producer
+// that does not own S2's slot), S3 is delivered while j's best block has the height of S2: the reorganisation
+// executes S1, refuses S2 before execution and must put everything back - including the finality bookkeeping,
+// which at that moment sits on S1 while the block to return to has S1's height + 1. Then the first chain goes on;
+// every LIB j reports afterwards must be on its main chain.
+func failedReorg(c *vf.Ctx, ri, k, n int) {
+	name := fmt.Sprintf("w%d", ri)
+	w := rig.NewWorld(name, c.Scratch(), rig.WorldOpts{Public: true, NAccts: 6, Mempool: "recorder", NBP: n, Strict: true})
+	defer w.CloseAll()
+	r := c.Rand(fmt.Sprintf("failedreorg/%d/%d", ri, n))
+	s := &sim{c: c, name: name, n: n, w: w, r: r, byHash: map[string]int{}, honestConfirms: true}
+	j, _, err := w.Node("j", func(cfg *rig.NodeConfig) { cfg.NodeKey = 0 })
+	relaxed := func(cfg *rig.NodeConfig) { cfg.Strict = false }
+	M, _, err1 := w.Node("M", relaxed)
+	F, _, err2 := w.Node("F", relaxed)
+	if err != nil || err1 != nil || err2 != nil {
+		c.Inconclusive(fmt.Sprintf("start nodes: %v %v %v", err, err1, err2))
+		return
+	}
+	s.nodes = []*rig.Client{j}
+	s.know = []map[int]bool{{}}
+	s.inbox = [][]int{nil}
+	s.fixed = []map[uint64]string{{}}
+	s.byz = []bool{false}
+	s.lib = make([]libRec, 1)
+	s.maxLib = make([]uint64, 1)
+	// produce one empty block on b in the given slot; wrong: signed by a producer that does not own the slot
+	produce := func(b *rig.Client, slot int, lpb []uint64, wrong bool) int {
+		ts := w.Tmpl.GenesisTS + int64(slot)*1e9 + 5e8
+		o, err := b.OwnerAt(ts)
+		if err != nil || o < 0 {
+			c.Inconclusive(fmt.Sprintf("%s: no owner for slot %d: %v", name, slot, err))
+			return -1
+		}
+		if wrong {
+			o = (o + 1) % n
+		}
+		best, _ := b.Best()
+		p, err := b.Produce(&rig.ProduceReq{TS: ts, Connect: true, Confirms: int64(best.No + 1 - lpb[o]), SignKey: o})
+		if err != nil || p.Panic != "" || p.GenErr != "" || p.AddErr != "" {
+			c.Inconclusive(fmt.Sprintf("%s: builder production failed in slot %d: %v %+v", name, slot, err, p))
+			return -1
+		}
+		bi := s.addBlock(p, o, wrong)
+		lpb[o] = s.blocks[bi].no
+		return bi
+	}
+	total := 3*n + 8 + r.Intn(5)
+	lpbM := make([]uint64, n)
+	var main []int
+	for h := 1; h <= total; h++ {
+		bi := produce(M, h, lpbM, false)
+		if bi < 0 {
+			return
+		}
+		main = append(main, bi)
+	}
+	t0 := n + 2 + k%4 // j's best when the side branch arrives
+	for h := 1; h <= t0; h++ {
+		s.trace = append(s.trace, fmt.Sprintf("main #%d(h%d,p%d)", main[h-1], h, s.blocks[main[h-1]].producer))
+		if !s.deliver(0, main[h-1], false) {
+			return
+		}
+	}
+	root := uint64(t0 - 2)
+	if s.lib[0].no > root {
+		c.Count("failed_reorg/root-below-lib-skipped", 1)
+		return // the branch would be refused for forking below the LIB: another class (collude)
+	}
+	for h := uint64(1); h <= root; h++ {
+		if res, err := F.AddBlock(s.blocks[main[h-1]].bytes); err != nil || res != "" {
+			c.Inconclusive(fmt.Sprintf("%s: fork builder refused main block: %v %s", name, err, res))
+			return
+		}
+	}
+	lpbF := make([]uint64, n)
+	for h := uint64(1); h <= root; h++ {
+		lpbF[s.blocks[main[h-1]].producer] = h
+	}
+	fslot := 200000 + 1000*ri
+	var side []int
+	for i := 0; i < 3; i++ {
+		fslot++
+		if i == 0 {
+			// S1 is signed by the producer of the main-chain block of the same height (an equivocation): it is then
+			// confirmed at the same pace as that block would be, by the blocks of the two other producers
+			wantP := s.blocks[main[root]].producer
+			for tr := 0; tr < 4*n; tr++ {
+				if o, err := F.OwnerAt(w.Tmpl.GenesisTS + int64(fslot)*1e9 + 5e8); err == nil && o == wantP {
+					break
+				}
+				fslot++
+			}
+		}
+		bi := produce(F, fslot, lpbF, i == 1)
+		if bi < 0 {
+			return
+		}
+		side = append(side, bi)
+	}
+	before, _ := j.Best()
+	for i, bi := range side {
+		s.trace = append(s.trace, fmt.Sprintf("side S%d #%d(h%d,p%d,wrong-slot=%v)", i+1, bi, s.blocks[bi].no, s.blocks[bi].producer, i == 1))
+		s.know[0][bi] = true
+		res, err := j.AddBlock(s.blocks[bi].bytes)
+		if err != nil {
+			s.fail("node-died", fmt.Sprintf("side block S%d: %v", i+1, err))
+			return
+		}
+		c.Count(fmt.Sprintf("failed_reorg/S%d/%s", i+1, short(res)), 1)
+		if !s.observe(0, fmt.Sprintf("side block S%d", i+1)) {
+			return
+		}
+	}
+	after, _ := j.Best()
+	c.Eval(1)
+	if !bytes.Equal(before.Hash, after.Hash) {
+		s.fail("invalid-branch-adopted", fmt.Sprintf("a branch whose second block is signed by a producer that does not own its slot displaced the main chain: best went from height %d to %d", before.No, after.No))
+		return
+	}
+	c.Count("failed_reorg/refused_before_execution", 1)
+	for h := t0 + 1; h <= total; h++ {
+		s.trace = append(s.trace, fmt.Sprintf("main #%d(h%d,p%d)", main[h-1], h, s.blocks[main[h-1]].producer))
+		if !s.deliver(0, main[h-1], false) {
+			return
+		}
+	}
+	if os.Getenv("C08_ONLY") != "" {
+		info, _ := j.Info()
+		fmt.Printf("DEBUG %s: t0=%d total=%d final LIB (%d,%s) maxLib=%d trace=%v\n", name, t0, total, info.LibNo, info.LibHash, s.maxLib[0], s.trace)
+		for _, b := range s.blocks {
+			fmt.Printf("  block #%d parent #%d h%d p%d wrong=%v %s\n", b.idx, b.parent, b.no, b.producer, b.byz, types.ToBlockID(b.hash))
+		}
+	}
+	c.Count(fmt.Sprintf("runs_failed_reorg_n%d", n), 1)
+	if s.maxLib[0] > 0 {
+		c.Count("runs_with_lib_advance", 1)
+		for x := 0; x < s.obs; x++ {
+			c.Nontrivial(fmt.Sprintf("%s|%d", name, x))
+		}
+	}
+	if k < 1 {
+		c.Sample(map[string]interface{}{"run": name, "n": n, "class": "failed reorganisation (wrong-slot block on the side branch)", "steps": s.trace})
 	}
 }
